@@ -12,43 +12,46 @@ MANIFEST = dict(
                "search_encasing_node; round-trip lemmas per statement / declaration form up to whole files; operator ladder regenerated "
                "from body_parser.rs by translator T3 with by-computation obligations. Differential run (extracted model vs lex+parse_gold) "
                "with an independent tree oracle from a grammar-directed generator."),
-    text=("PROVED (Properties/C06.v, all Closed under the global context; memoisation off, its invisibility is C07): the ladder regenerated "
-          "from body_parser.rs is the model's ladder level by level and is well formed (no empty level, levels disjoint, no operator starts a "
-          "primary except '-', none continues an identifier). C06_binops_roundtrip(_generic): for ANY ladder and operand parser, an expression "
-          "derivable at level k (left operand of a level-j operator of level >= j, right operand of level > j) parses with the level-k parser "
-          "to exactly its tree, whatever follows, unbounded depth; C06_paren_roundtrip: any expression with parentheses inserted exactly where "
-          "needed parses to its own tree. C06_expr_roundtrip: the real grammar -- identifiers, literals, parentheses, prefix/postfix operators, "
-          "dot chains, method calls with argument lists, array accesses, set literals, all 8 binary levels -- g_expr(gram fuel) returns the derived "
-          "tree, consumes exactly the derived tokens, adds no diagnostic. C06_precedence / C06_left_assoc / C06_parentheses for ALL operator pairs "
-          "of the generated ladder (+ C06_all_operator_pairs_computed: all 529 pairs by vm_compute on the memoised model). C06_range_encloses, "
-          "C06_innermost_is_ident: under the explicit token-order hypothesis every node of an expression tree encloses its children, siblings are "
-          "strictly ordered, and search_encasing_node at any position of a terminal's token returns that terminal. C06_stmt_roundtrip: assignment, "
-          "expression statement (dot chain/call, postfix), return, exit/break/continue, comment, var of a basic type, while, loop, repeat-until, "
-          "for (to/downto, optional step), if/elseif/else with arbitrarily nested bodies. C06_file_roundtrip_partial: class/module header, uses, constants, fields of a basic type, "
-          "comments, procedures and functions without parameter list and modifiers over those statements: parse_gold returns exactly the derived "
-          "declarations, all tokens consumed, zero diagnostics. "
-          "CORRESPONDENCE ONLY (a test): parameters, modifiers, forward/external, method#event, type declarations and all non-basic type forms, "
-          "memory/absolute/multilang, annotations, foreach/switch/OQL statements, const/uses/type inside bodies, the memoised parser on "
-          "whole files, the lexer (text -> tokens) in front of the parser, random layout. The test: all ordered operator pairs of the regenerated "
-          "ladder plain and with both bracketings (expected trees from the property's own precedence table), each of the 17 statement forms "
-          "inside every body of each of the 7 block statements, random generated programs under random layout; model = implementation on the "
-          "complete observation, and on the implementation's output alone: zero diagnostics, nothing unconsumed, the generator's expected shape "
-          "(same kinds, names, nesting, order; comment nodes aside: comments are layout), every range encloses its children's, search_encasing_node finds every identifier terminal."),
-    note=("Partial by design: the proof covers the sub-grammar listed above; the rest of the grammar is covered by the differential test only. "
-          "Token-order hypothesis of the range theorems (lexer output is ordered, non-literal tokens non-empty) is assumed explicitly (C08/C05). "
-          "Enclosure: the only exception found is AstRoot (default range 0:0-0:0). AstFunction's children are not in source order (name, return "
-          "type, parameters, body) but enclosed and pairwise disjoint, so the lookup is unaffected; a multi-line string literal's token END lies on its "
-          "start line, parents take their end from the same token, enclosure holds (hand-written multi-line programs in the run). "
+    text=("PROVED (Properties/C06.v, all Closed under the global context): the ladder regenerated from body_parser.rs is the model's ladder level by "
+          "level and is well formed. C06_binops_roundtrip(_generic) / C06_paren_roundtrip: precedence climbing for ANY ladder and operand parser, unbounded "
+          "depth. C06_expr_roundtrip: the whole expression grammar (identifiers, literals, parentheses, prefix/postfix operators, dot chains, calls with "
+          "argument lists, array accesses, set literals, all 8 binary levels); C06_precedence / C06_left_assoc / C06_parentheses for ALL operator pairs "
+          "(+ all 529 pairs by vm_compute on the memoised model). C06_range_encloses, C06_innermost_is_ident for expression trees under the explicit "
+          "token-order hypothesis. C06_type_roundtrip: every type form (basic, sized, enum, refto/listof with options and inverse, literal ranges, sets, "
+          "pointers, instanceof, array/sequence with one or two indexes, records with parent and nested field types, proc/func types); "
+          "C06_params_roundtrip: absent/empty/typed/untyped parameters with const/var/inout. C06_stmt_roundtrip: assignment, expression statement, "
+          "return, exit/break/continue, comment, var (any type, optional absolute), const/uses/type inside bodies, while, loop, repeat-until, for, "
+          "foreach (downto/using), switch with when value lists / ranges and else, if/elseif/else, arbitrarily nested. C06_decl_roundtrip: class/module "
+          "header, uses, const (multilang), type declarations, fields (annotation, memory, any type, member modifiers, absolute), comments, proc/func "
+          "with plain or method#event names, parameter lists, modifiers private/protected/final/override/forward/external (forward/external: no body). "
+          "C06_type/stmt/decl/file_encloses: for lexer-ordered tokens every node of every derivable declaration (types, parameters, statements nested "
+          "to any depth) lies inside its tokens and encloses its children. C06_file_roundtrip: for every derivable file, parse_gold ITSELF (memoised, default fuel) returns exactly the derived declarations, every "
+          "token consumed, zero diagnostics; C06_file_roundtrip_any: the same for memoisation on/off and ANY fuel above the number of tokens -- no "
+          "hypothesis on the derivation level (C06_parse_gold_fuel_independent: C07's memo simulation at two independent fuel levels). "
+          "CORRESPONDENCE ONLY (a test): OQL select/fetch statements, annotations in front of declarations other than fields, composed types "
+          "(T + (a, b)), the position lookup outside expression trees (range enclosure IS proved for every derivable construct: C06_file_encloses), the lexer "
+          "(text -> tokens) in front of the parser, random layout. The test: all ordered operator pairs of the regenerated ladder plain and with both "
+          "bracketings (expected trees from the property's own precedence table), each of the 20 statement forms inside every body of each of the 7 "
+          "block statements, random generated programs (every construct above, incl. untyped parameters, annotations, uses/type/var-absolute in bodies) "
+          "under random layout; model = implementation on the complete observation, and on the implementation's output alone: zero diagnostics, nothing "
+          "unconsumed, the generator's expected shape (same kinds, names, nesting, order; comment nodes aside: comments are layout), every range "
+          "encloses its children's, search_encasing_node finds every identifier terminal."),
+    note=("The file theorem is about parse_gold itself (memoisation on, default fuel): C07's simulation, restated for two fuel levels in "
+          "Proofs/FuelIndep.v, transfers the memo-off round trip. Token-order hypothesis of the range theorems (lexer output is ordered, non-literal "
+          "tokens non-empty) is assumed explicitly (C08/C05). Enclosure: the only exception found is AstRoot (default range 0:0-0:0). AstFunction's "
+          "children are not in source order (name, return type, parameters, body) but enclosed and pairwise disjoint, so the lookup is unaffected; a "
+          "multi-line string literal's token END lies on its start line, parents take their end from the same token, enclosure holds. "
           "Comments between statements are layout (the property's quantifier): trees are compared modulo AstComment nodes, comments are generated in every "
           "position. Documented fact about the grammar, not a refutation (C06_comment_node_dropped_before_block): a comment directly in front of a block "
-          "statement, a block terminator or a top-level proc/func yields no AstComment node (exp_token skips comments), elsewhere the node is kept; "
-          "evidence records comments generated vs comment nodes found."),
+          "statement, a block terminator or a top-level proc/func yields no AstComment node (exp_token skips comments), elsewhere the node is kept."),
     design="6 C06",
     engines=[dict(name="E-parse", path="harness/src/eng_parse.rs, treedump.rs + coq/extract/eng_parse.ml, tree_io.ml",
-                  kind_free_text="differential: lex+parse_gold vs extracted Coq lexer+parser model on generated programs; independent oracle: expected tree shape from vlib/goldgen.py + checks/c06gen.py, range enclosure, search_encasing_node re-implemented over the dump")],
+                  kind_free_text="differential: lex+parse_gold vs extracted Coq lexer+parser model on generated programs; independent oracle: expected tree shape from vlib/goldgen.py + checks/c06gen.py, range enclosure, search_encasing_node re-implemented over the dump"),
+             dict(name="E-encase", path="harness/src/eng_encase.rs + coq/extract/eng_encase.ml, Extract_encase.v (Model/Encase.v)",
+                  kind_free_text="differential: the real manager/utils.rs:search_encasing_node on the annotated mirror of the parsed tree vs the extracted model Encase.search on the dumped tree, at the start / middle / end of every token-carrying node (terminals, type names, parameter / field / record-field / variant / declaration names); oracle: the answer is that node")],
 )
 ASSUMPTIONS = [
-    "the theorems are about the un-memoised grammar (cmemo = false); C07 shows memoisation invisible; the differential run and C06_all_operator_pairs_computed use the memoised parser",
+    "construct-level theorems (expressions, types, statements, declarations) are about the un-memoised grammar (cmemo = false); the file-level theorem C06_file_roundtrip is about the memoised parse_gold, via C07's simulation (Proofs/FuelIndep.v)",
     "range theorems assume the token-order hypothesis tord explicitly (ranges well formed, consecutive tokens do not overlap, non-literal tokens non-empty): a statement about lexer output (C05/C08)",
     "the operator ladder is regenerated from /repo/src/parser/body_parser.rs on every run (translator T3); lexemes of the operators are cross-validated against the real lexer",
     "the generator's expected trees (vlib/goldgen.py) and the precedence table goldgen.OP_LEVELS are the property's specification, independent of model and code",
@@ -88,10 +91,19 @@ def build_cases(ctx, levels):
     rnd = []
     for i in range(n):
         t, kids, methods = g.gen_program()
+        if rng.random() < 0.5:
+            t = G.comment_terminators(rng, t, 0.35)
         if rng.random() < 0.6:
             t = G.relayout(rng, t)
         rnd.append(("random", None, t, kids))
     add("random_programs", rnd)
+    # a comment in front of EVERY block terminator (with and without else parts): the statement forms nested in block forms again,
+    # and hand-written switch blocks; comments are layout, so the expected trees are unchanged
+    tc = []
+    for (k, info, text, exp) in G.nested_programs("%s-tc" % ctx.seed, 2 if ctx.quick else 12):
+        tc.append(("termcomment", info, G.comment_terminators(rng, text, 1.0), exp))
+    tc += [("termcomment", None, t, None) for t in G.SWITCH_COMMENT_CASES]
+    add("terminator_comments", tc)
     # hand-written programs with string literals that span lines (no expected tree: the expectation-free clauses only)
     add("multiline_literals", [("multiline", None, t, None) for t in G.MULTILINE_LITERALS])
     return cases, ex, hist
@@ -207,6 +219,48 @@ def correspondence(ctx, broken_obligations=()):
         v = core.Violation("; ".join(xval)[:500], path, False)
         v.coverage = cov
         raise v
+    # --- the position lookup through the REAL search_encasing_node (engine encase), against the model Encase.search and
+    #     against the property: at every position of a node's own token / name token the innermost node is that node
+    impl = core.run_lines(hb, "parse", cases)
+    ecases, expect = [], {}
+    nq = 0
+    for c, o in zip(cases, impl):
+        parts = o.split("|")
+        if len(parts) != 3:
+            continue
+        root = goldgen.shape_of_dump(parts[1], kinds)
+        qs = G.lookup_queries(root)
+        if not qs:
+            continue
+        ec = c + "|" + ",".join("%d:%d" % p for (p, _) in qs)
+        ecases.append(ec)
+        expect[ec] = [(n[0], n[3]["range"]) for (_, n) in qs]
+        nq += len(qs)
+
+    def enc_oracle(case, out):
+        if out.startswith("PANIC") or out in ("CRASH", "HANG"):
+            return "the implementation did not return normally: " + out[:200]
+        want = expect.get(case)
+        if want is None:
+            return None
+        got = out.split(";") if out else []
+        if len(got) != len(want):
+            return "search_encasing_node answered %d of %d positions" % (len(got), len(want))
+        ps = case.split("|", 1)[1].split(",")
+        for p, g, (wk, wr) in zip(ps, got, want):
+            f = g.split(":")
+            gk = kinds[int(f[0])] if 0 <= int(f[0]) < len(kinds) else "?"
+            gr = tuple(int(x) for x in f[1:5])
+            if gk != wk or gr != tuple(wr):
+                return "innermost node at position %s is %s %s, expected the %s %s whose token is there" % (p, gk, gr, wk, tuple(wr))
+        return None
+
+    cov2 = diff.differential(ctx, "encase", ecases, oracle=enc_oracle, split=lambda out: tuple(out.split("#", 1)),
+                             nontrivial=lambda c: c.count(".") >= 10, describe=lambda c: pc.dec(c.split("|", 1)[0]) + " @ " + c.split("|", 1)[1][:200])
+    cov["lookup_programs"] = cov2["programs"]
+    cov["lookup_positions"] = nq
+    cov["lookup_disagreements_checked"] = cov2["disagreements_checked"]
+    cov["lookup_oracle_failures"] = cov2["oracle_failures"]
     cov["input_histogram"] = hist
     cov["ladder"] = [[G.LEXEME[o] for o in l] for _, l in levels]
     cov["ladder_levels_exercised"] = len(levels)
@@ -214,7 +268,7 @@ def correspondence(ctx, broken_obligations=()):
     cov["comment_nodes_in_trees"] = stats.get("comment_nodes_found", 0)
     cov["exhaustive"] = True
     cov["rule"] = ("exhaustive: all %d ordered pairs of the %d operators of the regenerated ladder as `x = a op1 b op2 c`, `(a op1 b) op2 c`, "
-                   "`a op1 (b op2 c)` with trees from the property's precedence table; each of the 17 statement forms first in every body of each "
+                   "`a op1 (b op2 c)` with trees from the property's precedence table; each of the 20 statement forms first in every body of each "
                    "of the 7 block statements and directly in a method (x%d seeds); random: %d programs of Gen.gen_program (depth 3) with random "
                    "keyword case, 60%% re-laid-out (indentation, trailing blanks, blank lines, LF/CRLF). Oracle on the implementation alone: rest 0, "
                    "zero diagnostics, expected shape modulo comment nodes, range enclosure, search_encasing_node at start/middle/end of every identifier terminal. "
